@@ -4,13 +4,18 @@ import XsdataModel.Conv.Factory
 namespace Xs.Conv
 open Py
 
-def prioLe (a b : Str) : Bool := decide (typePriority a ≤ typePriority b)
+def prioLe (a b : Str) : Bool := decide (typeKey a ≤ typeKey b)
 
 theorem prioLe_trans (a b c : Str) : prioLe a b = true → prioLe b c = true → prioLe a c = true := by
   simp [prioLe]; omega
 
 theorem prioLe_total (a b : Str) : (prioLe a b || prioLe b a) = true := by
   simp [prioLe]; omega
+
+/-- the key order refines the priority order -/
+theorem prio_le_of_key_le {a b : Str} (h : typeKey a ≤ typeKey b) : typePriority a ≤ typePriority b := by
+  unfold typeKey at h
+  split at h <;> split at h <;> omega
 
 def tyLe (a b : Ty) : Bool := decide (a.prio ≤ b.prio)
 
